@@ -24,7 +24,7 @@ CORPUS = os.path.join(VERIF, "corpus", "C05")
 NPROC = min(16, os.cpu_count() or 8)
 
 SCHEMAS = {"c05a": ["c05a-base.p21", "c05a-scope.p21", "c05a-work.p21"], "c05b": ["c05b-base.p21"]}
-FN_LOOPS = ["skipinst", "findstart", "readcomment", "toksep", "findheader"]
+FN_LOOPS = ["skipinst", "findstart", "readcomment", "toksep", "findheader"]   # + "readdata1" on token sequences
 
 
 # ---------------------------------------------------------------------------------------------- running the real code
@@ -231,6 +231,37 @@ def loop_requests(ctx, quick, k):
         bs = b"".join(rng.choice(frag) for _ in range(rng.randrange(1, 14)))
         for fn in FN_LOOPS:
             req.append(f"{fn} {hexs(bs)}")
+    # the instance loop of pass 1 (ReadData1) on token sequences: ids, `=`, known / unknown keywords, records, `;`, ENDSEC
+    # and its prefixes, strings holding `;`, comments, `!`, `,`.  Domain of the model: no record that starts with `(` or `&`
+    # right after `=` (external mappings / SCOPE are outside the skeleton), each id at most once.
+    toks = [b"#1", b"#2", b"=", b"POINT", b"NOPE", b"(1.,2.)", b";", b" ", b"ENDSEC", b"END", b"E", b"'a;'", b"/*c*/", b"!", b","]
+
+    def in_domain(t):
+        if t.count(b"#1") > 1 or t.count(b"#2") > 1:
+            return False
+        for i, x in enumerate(t):
+            if x == b"=":
+                j = i + 1
+                while j < len(t) and t[j] in (b" ", b"/*c*/"):
+                    j += 1
+                if j < len(t) and t[j].startswith(b"("):
+                    return False
+        return True
+    for n in range(0, (3 if quick else 4) + 1):
+        for t in itertools.product(toks, repeat=n):
+            if in_domain(t):
+                req.append(f"readdata1 {hexs(b''.join(t))}")
+    insts = [b"#%d=POINT(1.,2.);", b"#%d=NOPE(1);", b"#%d=KINDS(", b"#%d POINT(1.);", b"garbage;", b"#%d=point('a;b');", b"#%d=!U(1);",
+             b"/*c*/", b" ", b"#%d=POINT(1.,2.) ENDSEC;", b"ENDSEC;", b"END;", b"'", b"#%d=;", b"#%d=DPOINT(1.,*);\n"]
+    for _ in range(300 if quick else 5000):
+        kk, out = 0, b""
+        for _i in range(rng.randrange(1, 12)):
+            x = rng.choice(insts)
+            if b"%d" in x:
+                kk += 1
+                x = x % kk
+            out += x
+        req.append(f"readdata1 {hexs(out)}")
     # long inputs around the limits: comment length, getline count
     c, g = k["comment"], k["getlineN"]
     for n in around(c, c + 1, extra=[100, 3 * c]):
